@@ -229,6 +229,11 @@ class Node:
         valid_nodes: List[Leaf] = []
         invalid_nodes: List[Leaf] = []
         for i in self.items():
+            for incoming in i.incoming_transitions:
+                incoming._len_to_root = float('inf')
+            if isinstance(i, Decision):
+                for outgoing in i.outgoing_transitions:
+                    outgoing._len_to_valid_node = float('inf')
             if isinstance(i, Leaf):
                 if i.is_valid:
                     valid_nodes.append(i)
